@@ -26,6 +26,9 @@ Bad(e) ==
   \cup (IF \A i \in DOMAIN e.ucalls : IsPrefix(e.prefix, e.ucalls[i]) THEN {} ELSE {"confined"})
   \cup (IF Outside(e.outside_before, e.prefix) = Outside(e.outside_after, e.prefix) THEN {} ELSE {"outside"})
   \cup (IF e.leak THEN {"leak"} ELSE {})
+  \* C07 on the root itself: an operation with the altroot's root as target or destination has the same outcome
+  \* as on P of the underlying filesystem, and afterwards both worlds answer the same about that directory
+  \cup (IF "twinpairs" \in DOMAIN e /\ \E i \in DOMAIN e.twinpairs : e.twinpairs[i].alt # e.twinpairs[i].under THEN {"twinroot"} ELSE {})
   \* C12 on hostile directory content: a create_dir target occupied by a symbolic link (dangling, looping or
   \* resolving) is reported as file-exists / directory-exists with the caller's path
   \cup (IF "occupied" \in DOMAIN e /\ \E i \in DOMAIN e.occupied : ~(e.occupied[i].k \in {"file_exists", "dir_exists"} /\ e.occupied[i].ep_ok) THEN {"occupied"} ELSE {})
